@@ -2,9 +2,9 @@
 C01 for the GENERIC block codec, second instalment: H_codec ("the decoding task run on what the encoding
 task wrote returns the block") is a THEOREM for every chain of 1..8 transforms over the twelve modelled
 transforms NONE, ZRLT, MTFT, RANK, RLT, SRT, PACK, DNA, LZ, LZX, LZP, MM and every entropy codec among NONE,
-ANS0, ANS1, RANGE, HUFFMAN — under one explicit, decidable side condition on the chain (`ChainFits`), which is
-void for chains without SRT and MM and which cannot be dropped (known finding F43:
-`C01_chain_expansion_limit`).  Property theorems only; proofs in `Kanzi/Proofs/BlockGen2Seq.lean` (sequence),
+ANS0, ANS1, RANGE, HUFFMAN — with NO side condition since fix F43 (/repo dfafae0): a block that its chain
+expands beyond the decoder's bound is stored untransformed (`C01_chain_expansion_limit` shows that branch at
+work; `ChainFits` says when it cannot be taken).  Property theorems only; proofs in `Kanzi/Proofs/BlockGen2Seq.lean` (sequence),
 `BlockGen2Kinds.lean` + `BlockGen2LZ.lean` (the transforms), `BlockGen2.lean` (block, entropy codecs),
 `BlockGen2Stream.lean` (headers, whole streams), `BlockGen2Limit.lean` (the limit).
 
@@ -36,7 +36,7 @@ import Kanzi.Properties.C01_blockgen
 namespace Kanzi.C01gen
 open Kanzi.Bits Kanzi.Block Kanzi.BlockGen Kanzi.BlockGen2 Kanzi.TrSmall Kanzi.Header
 
-/-! ## 1. the side condition -/
+/-! ## 1. when the chain keeps a block within the decoder's bound -/
 
 /-- bound on the post-transform length of a block of at most `s` bytes after the chain `ks`: a stage adds
 at most `Kind.grow` (SRT: `1024 + len / 2^28` bytes — 256 frequencies as varints; MM: `max(len/16, 64)`;
@@ -131,64 +131,64 @@ example (B : Nat) (hB : 1024 ≤ B) (hmax : B + 1028 ≤ 2 ^ 30) : B + 1028 * 1 
 for a transform word over NONE ZRLT MTFT RANK RLT SRT PACK DNA LZ LZX LZP MM, for any setting of the
 constructor parameters `fast` / `onlyDNA` / `extra` / SBRT mode), `ent` = NONE, ANS0, ANS1, RANGE or HUFFMAN
 as the factory builds them, any checksum width `ck`, skipBlocks on or off, any length `obuf` of the task's
-output buffer, block size `B ≤ 2^30` with `ChainFits ks B`, `b` a block of 1..B bytes: the encoding task
-succeeds and the decoding task returns exactly the block with `decoded = |b|` — through the copy-block
-branch, every pattern of declined stages, every value of the data type hint along the chain, both layouts
-of the skip flags, every width of the length field, the checksum field and its comparison. -/
+output buffer, a Writer of block size `B ≤ 2^30` (`ctx["blockSize"] = B`, as `NewWriter` stores it), `b` a
+block of 1..B bytes: the encoding task succeeds and the decoding task returns exactly the block with
+`decoded = |b|` — through the copy-block branch, every pattern of declined stages, every value of the data
+type hint along the chain, the branch of fix F43 (a chain that expands the block beyond the decoder's bound:
+block stored untransformed), both layouts of the skip flags, every width of the length field, the checksum
+field and its comparison.  NO hypothesis on the chain. -/
 theorem C01_codec_chain (ck : Nat) (ks : List Kind) (ent : Ent) (sb : Bool) (B obuf : Nat) (b : List Nat)
-    (hn : ks.length ≤ 8) (hent : IsModelledEnt ent) (hfit : ChainFits ks B)
+    (hn : ks.length ≤ 8) (hent : IsModelledEnt ent)
     (hbytes : ∀ x ∈ b, x < 256) (h0 : 0 < b.length) (hB : b.length ≤ B) (hmax : B ≤ 2 ^ 30) :
-    ∃ p, encodeTaskGen2 ⟨ck, kindTrs ks, ent, sb⟩ obuf b = .ok p ∧
-      decodeTaskGen2 ⟨ck, kindTrs ks, ent, sb⟩ B p = ⟨b.length, .ok b⟩ := by
-  obtain ⟨p, h1, h2, _⟩ := block_roundtrip2 ⟨ck, kindTrs ks, ent, sb⟩ ks rfl hn B obuf b
-    (entLawAt_of_law _ _ (entLaw_modelled ent hent _) _) (by rw [chainBound_eq]; exact hfit) hbytes h0 hB hmax
+    ∃ p, encodeTaskGen2 ⟨ck, kindTrs ks, ent, sb, some B⟩ obuf b = .ok p ∧
+      decodeTaskGen2 ⟨ck, kindTrs ks, ent, sb, some B⟩ B p = ⟨b.length, .ok b⟩ := by
+  obtain ⟨p, h1, h2, _⟩ := block_roundtrip2 ⟨ck, kindTrs ks, ent, sb, some B⟩ ks rfl hn B obuf b rfl
+    (entLawAt_of_law _ _ (entLaw_modelled ent hent _) _) hbytes h0 hB hmax
   exact ⟨p, h1, h2⟩
 
-/-- **C01_codec_chain_nonexpanding**: NO remaining hypothesis for the chains over NONE ZRLT MTFT RANK RLT
-PACK DNA LZ LZX LZP (no SRT, no MM). -/
+/-- the same under its former name (chains without SRT and MM; the hypothesis `hk` is no longer needed) -/
 theorem C01_codec_chain_nonexpanding (ck : Nat) (ks : List Kind) (ent : Ent) (sb : Bool) (B obuf : Nat)
-    (b : List Nat) (hn : ks.length ≤ 8) (hk : ∀ k ∈ ks, NonExpanding k) (hent : IsModelledEnt ent)
+    (b : List Nat) (hn : ks.length ≤ 8) (_hk : ∀ k ∈ ks, NonExpanding k) (hent : IsModelledEnt ent)
     (hbytes : ∀ x ∈ b, x < 256) (h0 : 0 < b.length) (hB : b.length ≤ B) (hmax : B ≤ 2 ^ 30) :
-    ∃ p, encodeTaskGen2 ⟨ck, kindTrs ks, ent, sb⟩ obuf b = .ok p ∧
-      decodeTaskGen2 ⟨ck, kindTrs ks, ent, sb⟩ B p = ⟨b.length, .ok b⟩ :=
-  C01_codec_chain ck ks ent sb B obuf b hn hent (C01_chain_fits_nonexpanding ks hk B hmax) hbytes h0 hB hmax
+    ∃ p, encodeTaskGen2 ⟨ck, kindTrs ks, ent, sb, some B⟩ obuf b = .ok p ∧
+      decodeTaskGen2 ⟨ck, kindTrs ks, ent, sb, some B⟩ B p = ⟨b.length, .ok b⟩ :=
+  C01_codec_chain ck ks ent sb B obuf b hn hent hbytes h0 hB hmax
 
 /-- the generic form: ANY entropy codec that satisfies the exact-consumption law AT THE BLOCK HANDED TO IT
-(`postBlock`: the output of the transform sequence; the law is only needed when the block is not a copy
-block) -/
+(`postBlock`: the output of the transform sequence, or the block itself when the bound of fix F43 applies;
+the law is only needed when the block is not a copy block) -/
 theorem C01_codec_chain_ent (ck : Nat) (ks : List Kind) (ent : Ent) (sb : Bool) (B obuf : Nat) (b : List Nat)
-    (hn : ks.length ≤ 8) (hent : EntLawAt ent (maxTransformLength B) (postBlock (kindTrs ks) obuf b))
-    (hfit : ChainFits ks B)
+    (hn : ks.length ≤ 8) (hent : EntLawAt ent (maxTransformLength B) (postBlock (kindTrs ks) (some B) obuf b))
     (hbytes : ∀ x ∈ b, x < 256) (h0 : 0 < b.length) (hB : b.length ≤ B) (hmax : B ≤ 2 ^ 30) :
-    ∃ p, encodeTaskGen2 ⟨ck, kindTrs ks, ent, sb⟩ obuf b = .ok p ∧
-      decodeTaskGen2 ⟨ck, kindTrs ks, ent, sb⟩ B p = ⟨b.length, .ok b⟩ := by
-  obtain ⟨p, h1, h2, _⟩ := block_roundtrip2 ⟨ck, kindTrs ks, ent, sb⟩ ks rfl hn B obuf b hent
-    (by rw [chainBound_eq]; exact hfit) hbytes h0 hB hmax
+    ∃ p, encodeTaskGen2 ⟨ck, kindTrs ks, ent, sb, some B⟩ obuf b = .ok p ∧
+      decodeTaskGen2 ⟨ck, kindTrs ks, ent, sb, some B⟩ B p = ⟨b.length, .ok b⟩ := by
+  obtain ⟨p, h1, h2, _⟩ := block_roundtrip2 ⟨ck, kindTrs ks, ent, sb, some B⟩ ks rfl hn B obuf b rfl hent
+    hbytes h0 hB hmax
   exact ⟨p, h1, h2⟩
 
 /-- **C01_codec_chain_fpaq_partial** / **C01_codec_chain_cm_partial**: FPAQ and CM (as the factory builds
 them: FPAQ chunks of 4 MiB; CM = binary coder with chunks of 2^26 bytes and a new CM predictor) are
 CONDITIONAL instances: the hypothesis is the decoder's own acceptance test of `C12_fpaq_block` /
 `C12_cm_block` ("no chunk codes to twice its size or more": `fFits2` / `fits2`, decidable by evaluation)
-on the block the transform sequence hands to the entropy coder.  It is not known to hold for every block
-(an adversarial block for a fresh predictor exists for TPAQ: F36), hence `_partial`. -/
+on the block handed to the entropy coder.  It is not known to hold for every block (an adversarial block for
+a fresh predictor exists for TPAQ: F36), hence `_partial`. -/
 theorem C01_codec_chain_fpaq_partial (ck : Nat) (ks : List Kind) (sb : Bool) (B obuf : Nat) (b : List Nat)
-    (hn : ks.length ≤ 8) (hfit : ChainFits ks B)
-    (hf2 : Fpaq.fFits2 Fpaq.DEFAULT_CHUNK (postBlock (kindTrs ks) obuf b) = true)
+    (hn : ks.length ≤ 8)
+    (hf2 : Fpaq.fFits2 Fpaq.DEFAULT_CHUNK (postBlock (kindTrs ks) (some B) obuf b) = true)
     (hbytes : ∀ x ∈ b, x < 256) (h0 : 0 < b.length) (hB : b.length ≤ B) (hmax : B ≤ 2 ^ 30) :
-    ∃ p, encodeTaskGen2 ⟨ck, kindTrs ks, fpaqEnt, sb⟩ obuf b = .ok p ∧
-      decodeTaskGen2 ⟨ck, kindTrs ks, fpaqEnt, sb⟩ B p = ⟨b.length, .ok b⟩ :=
+    ∃ p, encodeTaskGen2 ⟨ck, kindTrs ks, fpaqEnt, sb, some B⟩ obuf b = .ok p ∧
+      decodeTaskGen2 ⟨ck, kindTrs ks, fpaqEnt, sb, some B⟩ B p = ⟨b.length, .ok b⟩ :=
   C01_codec_chain_ent ck ks fpaqEnt sb B obuf b hn
-    (entLawAt_fpaq _ (by unfold maxTransformLength; omega) _ hf2) hfit hbytes h0 hB hmax
+    (entLawAt_fpaq _ (by unfold maxTransformLength; omega) _ hf2) hbytes h0 hB hmax
 
 theorem C01_codec_chain_cm_partial (ck : Nat) (ks : List Kind) (sb : Bool) (B obuf : Nat) (b : List Nat)
-    (hn : ks.length ≤ 8) (hfit : ChainFits ks B)
-    (hf2 : BinEnt.fits2 cmPred BinEnt.MAX_CHUNK (CM.cmInit false) (postBlock (kindTrs ks) obuf b) = true)
+    (hn : ks.length ≤ 8)
+    (hf2 : BinEnt.fits2 cmPred BinEnt.MAX_CHUNK (CM.cmInit false) (postBlock (kindTrs ks) (some B) obuf b) = true)
     (hbytes : ∀ x ∈ b, x < 256) (h0 : 0 < b.length) (hB : b.length ≤ B) (hmax : B ≤ 2 ^ 30) :
-    ∃ p, encodeTaskGen2 ⟨ck, kindTrs ks, cmEnt, sb⟩ obuf b = .ok p ∧
-      decodeTaskGen2 ⟨ck, kindTrs ks, cmEnt, sb⟩ B p = ⟨b.length, .ok b⟩ :=
+    ∃ p, encodeTaskGen2 ⟨ck, kindTrs ks, cmEnt, sb, some B⟩ obuf b = .ok p ∧
+      decodeTaskGen2 ⟨ck, kindTrs ks, cmEnt, sb, some B⟩ B p = ⟨b.length, .ok b⟩ :=
   C01_codec_chain_ent ck ks cmEnt sb B obuf b hn
-    (entLawAt_cm _ (by unfold maxTransformLength; omega) _ hf2) hfit hbytes h0 hB hmax
+    (entLawAt_cm _ (by unfold maxTransformLength; omega) _ hf2) hbytes h0 hB hmax
 
 /-- the hypotheses of the instances, spelled out: the entropy codecs, and the law every modelled transform
 satisfies (for every data type hint `dt` and every non-empty destination) -/
@@ -214,22 +214,17 @@ theorem C01_chain_no_fault (b : List Nat) (d : Nat) (hb : ∀ x ∈ b, x < 256) 
 
 /-- C01_codec_of_header2: whatever a header of the modelled codecs announces (`cfgOfHeader2 h = some c`: every
 slot of the transform word is one of the twelve transforms; `uncondEntropy`: entropy NONE / HUFFMAN / RANGE /
-ANS0 / ANS1, codes 0 1 4 5 8), the
-configuration the Reader derives from it decodes what a Writer with the same parameters (skipBlocks on or
-off, any buffer history) encoded. -/
+ANS0 / ANS1, codes 0 1 4 5 8), the configuration the Reader derives from it decodes what a Writer with the
+same parameters (skipBlocks on or off, any buffer history) encoded. -/
 theorem C01_codec_of_header2 (h : Header) (sb : Bool) (c : Cfg2) (hc : cfgOfHeader2 h false = some c)
-    (hE : uncondEntropy h.entropyType) (ks : List Kind) (hks : newSeq2 h.transformType h.entropyType = some ks) (hfit : ChainFits ks h.blockSize)
+    (hE : uncondEntropy h.entropyType)
     (obuf : Nat) (b : List Nat) (hbytes : ∀ x ∈ b, x < 256) (h0 : 0 < b.length) (hB : b.length ≤ h.blockSize)
     (hmax : h.blockSize ≤ 2 ^ 30) :
     ∃ p, encodeTaskGen2 { c with skipBlocks := sb } obuf b = .ok p ∧
       decodeTaskGen2 c h.blockSize p = ⟨b.length, .ok b⟩ := by
-  obtain ⟨_, _, he, ks', hks', htrs, hn⟩ := cfgOfHeader2_spec h false c hc
-  rw [hks] at hks'
-  injection hks' with hks'
-  subst hks'
-  obtain ⟨p, h1, h2, _⟩ := block_roundtrip2 { c with skipBlocks := sb } ks htrs hn h.blockSize obuf b
-    (entLawAt_of_law _ _ (entLaw_modelled _ (entOf2_modelled _ _ he hE) _) _)
-    (by rw [chainBound_eq]; exact hfit) hbytes h0 hB hmax
+  obtain ⟨_, _, hbs, he, ks, _, htrs, hn⟩ := cfgOfHeader2_spec h false c hc
+  obtain ⟨p, h1, h2, _⟩ := block_roundtrip2 { c with skipBlocks := sb } ks htrs hn h.blockSize obuf b hbs
+    (entLawAt_of_law _ _ (entLaw_modelled _ (entOf2_modelled _ _ he hE) _) _) hbytes h0 hB hmax
   exact ⟨p, h1, h2⟩
 
 /-! ## 3. the CLI levels -/
@@ -237,26 +232,23 @@ theorem C01_codec_of_header2 (h : Header) (sb : Bool) (c : Cfg2) (hc : cfgOfHead
 /-- **C01_level0**: `kanzi -l 0` = NONE / NONE -/
 theorem C01_level0 (ck : Nat) (sb : Bool) (B obuf : Nat) (b : List Nat)
     (hbytes : ∀ x ∈ b, x < 256) (h0 : 0 < b.length) (hB : b.length ≤ B) (hmax : B ≤ 2 ^ 30) :
-    ∃ p, encodeTaskGen2 ⟨ck, kindTrs [.none], noneEnt, sb⟩ obuf b = .ok p ∧
-      decodeTaskGen2 ⟨ck, kindTrs [.none], noneEnt, sb⟩ B p = ⟨b.length, .ok b⟩ :=
-  C01_codec_chain_nonexpanding ck [.none] noneEnt sb B obuf b (by decide)
-    (by intro k hk; simp at hk; subst hk; exact ⟨by decide, by decide⟩) (Or.inl rfl) hbytes h0 hB hmax
+    ∃ p, encodeTaskGen2 ⟨ck, kindTrs [.none], noneEnt, sb, some B⟩ obuf b = .ok p ∧
+      decodeTaskGen2 ⟨ck, kindTrs [.none], noneEnt, sb, some B⟩ B p = ⟨b.length, .ok b⟩ :=
+  C01_codec_chain ck [.none] noneEnt sb B obuf b (by decide) (Or.inl rfl) hbytes h0 hB hmax
 
 /-- **C01_level1**: `kanzi -l 1` = LZX / NONE -/
 theorem C01_level1 (ck : Nat) (sb : Bool) (B obuf : Nat) (b : List Nat)
     (hbytes : ∀ x ∈ b, x < 256) (h0 : 0 < b.length) (hB : b.length ≤ B) (hmax : B ≤ 2 ^ 30) :
-    ∃ p, encodeTaskGen2 ⟨ck, kindTrs [.lz true], noneEnt, sb⟩ obuf b = .ok p ∧
-      decodeTaskGen2 ⟨ck, kindTrs [.lz true], noneEnt, sb⟩ B p = ⟨b.length, .ok b⟩ :=
-  C01_codec_chain_nonexpanding ck [.lz true] noneEnt sb B obuf b (by decide)
-    (by intro k hk; simp at hk; subst hk; exact ⟨by decide, by decide⟩) (Or.inl rfl) hbytes h0 hB hmax
+    ∃ p, encodeTaskGen2 ⟨ck, kindTrs [.lz true], noneEnt, sb, some B⟩ obuf b = .ok p ∧
+      decodeTaskGen2 ⟨ck, kindTrs [.lz true], noneEnt, sb, some B⟩ B p = ⟨b.length, .ok b⟩ :=
+  C01_codec_chain ck [.lz true] noneEnt sb B obuf b (by decide) (Or.inl rfl) hbytes h0 hB hmax
 
 /-- **C01_level2**: `kanzi -l 2` = DNA+LZ / HUFFMAN -/
 theorem C01_level2 (ck : Nat) (sb : Bool) (B obuf : Nat) (b : List Nat)
     (hbytes : ∀ x ∈ b, x < 256) (h0 : 0 < b.length) (hB : b.length ≤ B) (hmax : B ≤ 2 ^ 30) :
-    ∃ p, encodeTaskGen2 ⟨ck, kindTrs [.alias true, .lz false], hufEnt, sb⟩ obuf b = .ok p ∧
-      decodeTaskGen2 ⟨ck, kindTrs [.alias true, .lz false], hufEnt, sb⟩ B p = ⟨b.length, .ok b⟩ :=
-  C01_codec_chain_nonexpanding ck [.alias true, .lz false] hufEnt sb B obuf b (by decide)
-    (by intro k hk; simp at hk; rcases hk with hk | hk <;> subst hk <;> exact ⟨by decide, by decide⟩)
+    ∃ p, encodeTaskGen2 ⟨ck, kindTrs [.alias true, .lz false], hufEnt, sb, some B⟩ obuf b = .ok p ∧
+      decodeTaskGen2 ⟨ck, kindTrs [.alias true, .lz false], hufEnt, sb, some B⟩ B p = ⟨b.length, .ok b⟩ :=
+  C01_codec_chain ck [.alias true, .lz false] hufEnt sb B obuf b (by decide)
     (Or.inr (Or.inr (Or.inr (Or.inr rfl)))) hbytes h0 hB hmax
 
 /-- the three configurations ARE what the level table of the tool (`Generated/Levels.lean`, regenerated
@@ -285,21 +277,65 @@ theorem C01_levels_out_of_reach :
         | _, _ => false) = true := by
   decide +kernel
 
-/-! ## 4. the side condition cannot be dropped (known finding F43) -/
+/-! ## 4. finding F43 and its repair -/
 
-/-- **C01_chain_expansion_limit.**  Six SRT stages, 1 KiB blocks (`-t SRT+SRT+SRT+SRT+SRT+SRT -b 1024`),
-entropy NONE, any checksum: for EVERY block of 1024 bytes the encoding task succeeds (the Writer reports no
-error) and the decoding task rejects what it wrote with "Invalid compressed block size" — every SRT stage
-prepends a header of at least 256 bytes, so the post-transform length is at least 2560, above the decoder's
-bound `maxTransformLength 1024 = 2304`.  (The real code behaves the same: stream `imagegen2`, family
-known-F43; five stages already fail on real data.)  `ChainFits` is false for this chain. -/
-theorem C01_chain_expansion_limit (ck obuf : Nat) (b : List Nat) (hb : ∀ x ∈ b, x < 256) (hlen : b.length = 1024) :
-    (∃ p, encodeTaskGen2 ⟨ck, kindTrs (List.replicate 6 .srt), noneEnt, false⟩ obuf b = .ok p ∧
-      decodeTaskGen2 ⟨ck, kindTrs (List.replicate 6 .srt), noneEnt, false⟩ 1024 p = .fail .size) ∧
-    ¬ ChainFits (List.replicate 6 .srt) 1024 :=
-  ⟨srt6_rejected ck obuf b hb hlen, by decide⟩
+/-- **C01_chain_expansion_limit.**  Six SRT stages, 1 KiB blocks (`-t SRT+SRT+SRT+SRT+SRT+SRT -b 1024`): every
+SRT stage prepends a header of at least 256 bytes, so for EVERY block of 1024 bytes the output of the sequence
+has at least 2560 bytes, above the decoder's bound `maxTransformLength 1024 = 2304` (`ChainFits` is false).
+  * Since fix F43 the branch "store the block untransformed" IS taken (`postOf … = (b, 0xFF)`: the block
+    itself goes to the entropy coder, all skip flags set), and the decoding task returns the block — any
+    entropy codec of the five, any checksum, any buffer history.
+  * Without the comparison (a ctx with no `uint` block size, which no Writer has; the code before the fix)
+    the six stages are applied, the encoding task succeeds and the decoding task rejects its output with
+    "Invalid compressed block size": the defect. -/
+theorem C01_chain_expansion_limit (ck obuf : Nat) (ent : Ent) (hent : IsModelledEnt ent) (sb : Bool)
+    (b : List Nat) (hb : ∀ x ∈ b, x < 256) (hlen : b.length = 1024) :
+    ¬ ChainFits (List.replicate 6 .srt) 1024 ∧
+    postOf (kindTrs (List.replicate 6 .srt)) (some 1024) obuf b = (b, 0xFF) ∧
+    (∃ p, encodeTaskGen2 ⟨ck, kindTrs (List.replicate 6 .srt), ent, sb, some 1024⟩ obuf b = .ok p ∧
+      decodeTaskGen2 ⟨ck, kindTrs (List.replicate 6 .srt), ent, sb, some 1024⟩ 1024 p = ⟨1024, .ok b⟩) ∧
+    (∃ p, encodeTaskGen2 ⟨ck, kindTrs (List.replicate 6 .srt), noneEnt, false, none⟩ obuf b = .ok p ∧
+      decodeTaskGen2 ⟨ck, kindTrs (List.replicate 6 .srt), noneEnt, false, none⟩ 1024 p = .fail .size) := by
+  refine ⟨by decide, srt6_fallback obuf b hb hlen, ?_, srt6_rejected_without_bs ck obuf b hb hlen⟩
+  have := C01_codec_chain ck (List.replicate 6 .srt) ent sb 1024 obuf b (by decide) hent hb (by omega)
+    (by omega) (by decide)
+  rw [hlen] at this
+  exact this
 
-/-- … while up to three SRT stages fit 1 KiB blocks, and eight fit 16 KiB blocks -/
+/-- when `ChainFits` holds the bound of fix F43 never applies: what goes to the entropy coder is the output
+of the sequence -/
+theorem C01_chain_fits_no_fallback (ks : List Kind) (hn : ks.length ≤ 8) (B obuf : Nat) (b : List Nat)
+    (hfit : ChainFits ks B) (hbytes : ∀ x ∈ b, x < 256) (hB : b.length ≤ B) (hmax : B ≤ 2 ^ 30) :
+    postOf (kindTrs ks) (some B) obuf b = forwardOf (kindTrs ks) obuf b := by
+  by_cases hb0 : b.length = 0
+  · have : b = [] := List.eq_nil_of_length_eq_zero hb0
+    subst this
+    unfold postOf fallback forwardOf seqForward2
+    simp
+  · unfold postOf fallback
+    rw [if_neg]
+    intro ⟨_, h2⟩
+    have hlaws := kindLtrs_law ks
+    have hlim : runG (kindLtrs ks) b.length ≤ lawLim := runG_le_lawLim ks b.length hn (by omega)
+    have hgm : ∀ l ∈ kindLtrs ks, ∀ a b, a ≤ b → l.g a ≤ l.g b := fun l hl => (hlaws l hl).gmono
+    have hreq0 : 0 < seqMaxLen (trsOf (kindTrs ks)) b.length := by
+      rw [← ltrs_kindLtrs, seqMaxLen_ltrs]
+      have := le_runMax (kindLtrs ks) b.length
+      omega
+    have := seq2_roundtrip lawLim (seqMaxLen (trsOf (kindTrs ks)) b.length)
+      (growTo obuf (seqMaxLen (trsOf (kindTrs ks)) b.length)) (runMax (kindLtrs ks) b.length) (initDt b) b.length
+      (kindLtrs ks) b hlaws (by simp only [kindLtrs, List.length_map]; exact hn) hreq0
+      (by unfold growTo; split <;> omega) hbytes (Nat.le_refl _) (Nat.le_refl _) hlim
+    rw [ltrs_kindLtrs] at this
+    have h3 : (forwardOf (kindTrs ks) obuf b).1.length ≤ runG (kindLtrs ks) b.length := this.2.2.1
+    have h4 := runG_mono (kindLtrs ks) hgm b.length B hB
+    have hml : maxLengthOf (some B) = maxTransformLength B := rfl
+    rw [hml] at h2
+    unfold ChainFits at hfit
+    rw [← chainBound_eq] at hfit
+    omega
+
+/-- up to three SRT stages fit 1 KiB blocks, and eight fit 16 KiB blocks -/
 example : ChainFits (List.replicate 1 .srt) 1024 ∧ ChainFits [.srt, .rlt true, .lz false, .srt] 4096 ∧
     ChainFits (List.replicate 8 .srt) 16384 ∧ ChainFits [.fsd, .lz true] 65536 := by decide
 
@@ -312,7 +348,7 @@ explicit, decidable size condition — no size bound is proved for HUFFMAN / RAN
 `C01_ans0_block_size`), the image exists and reading it back yields the header, exactly the blocks, and
 stops at the end marker. -/
 theorem C01_stream_image_chain_partial (h : Header) (wf : WF h) (cd : Cfg2) (hcfg : cfgOfHeader2 h false = some cd)
-    (hE : uncondEntropy h.entropyType) (ks : List Kind) (hks : newSeq2 h.transformType h.entropyType = some ks) (hcf : ChainFits ks h.blockSize)
+    (hE : uncondEntropy h.entropyType)
     (sb : Bool) (jobs : Nat) (blocks : List (List Nat)) (hv : ValidBlocks h.blockSize blocks)
     (hfit : ∀ b ∈ blocks, ∀ obuf p, encodeTaskGen2 { cd with skipBlocks := sb } obuf b = .ok p →
       p.length ≤ maxFrameBits h.blockSize) :
@@ -322,40 +358,25 @@ theorem C01_stream_image_chain_partial (h : Header) (wf : WF h) (cd : Cfg2) (hcf
   intro b hb
   obtain ⟨h0, hB, hx⟩ := hv b hb
   refine ⟨fun obuf => ?_, h0, hB⟩
-  obtain ⟨p, hp, hd⟩ := C01_codec_of_header2 h sb cd hcfg hE ks hks hcf obuf b hx h0 hB wf.bsHi
+  obtain ⟨p, hp, hd⟩ := C01_codec_of_header2 h sb cd hcfg hE obuf b hx h0 hB wf.bsHi
   have hf := hfit b hb obuf p hp
   have h8 : 8 ≤ p.length := by
     unfold encodeTaskGen2 at hp
     split at hp
-    · obtain ⟨e, _, h8, _⟩ := encodeWith_shape _ _ _ _ _ _ _ hp; exact h8
-    · unfold encodeWith2 at hp
-      simp only at hp
-      split at hp
-      · cases hp
-      · split at hp
-        · cases hp
-        · split at hp
-          · cases hp
-          · injection hp with hp
-            rw [← hp]
-            simp only [List.length_append, Bits.natBits_length]
-            omega
+    · obtain ⟨e, _, h8, _⟩ := encodeWith_shape _ _ _ _ _ _ _ _ hp; exact h8
+    · obtain ⟨e, _, h8, _⟩ := encodeOf_shape _ _ _ _ _ _ _ hp; exact h8
   exact ⟨p, hp, hd, by omega, Nat.lt_of_le_of_lt hf (maxFrameBits_lt _), hf⟩
 
-/-- **C01_stream_image_chain_none**: no remaining hypothesis but `ChainFits` for entropy NONE — in
-particular for the streams of `kanzi -l 0` and `kanzi -l 1`: every well-formed header announcing entropy NONE
-and a transform word over the twelve transforms, every list of blocks of 1..blockSize bytes, any job count,
-skipBlocks on or off: the image parses back to the blocks. -/
+/-- **C01_stream_image_chain_none**: NO remaining hypothesis for entropy NONE — in particular for the
+streams of `kanzi -l 0` and `kanzi -l 1`: every well-formed header announcing entropy NONE and a transform
+word over the twelve transforms, every list of blocks of 1..blockSize bytes, any job count, skipBlocks on or
+off: the image parses back to the blocks. -/
 theorem C01_stream_image_chain_none (h : Header) (wf : WF h) (hent : h.entropyType = 0) (cd : Cfg2)
     (hcfg : cfgOfHeader2 h false = some cd)
-    (ks : List Kind) (hks : newSeq2 h.transformType h.entropyType = some ks) (hcf : ChainFits ks h.blockSize)
     (sb : Bool) (jobs : Nat) (blocks : List (List Nat)) (hv : ValidBlocks h.blockSize blocks) :
     ∃ img, streamImageGen2 h { cd with skipBlocks := sb } jobs blocks = .ok img ∧
       parseImageGen2 img = (some h, blocks, .endOfStream) := by
-  obtain ⟨_, _, he, ks', hks', htrs, hn⟩ := cfgOfHeader2_spec h false cd hcfg
-  rw [hks] at hks'
-  injection hks' with hks'
-  subst hks'
+  obtain ⟨_, _, hbs, he, ks, _, htrs, hn⟩ := cfgOfHeader2_spec h false cd hcfg
   have hne : cd.ent = noneEnt := by
     have := he
     rw [hent] at this
@@ -365,9 +386,8 @@ theorem C01_stream_image_chain_none (h : Header) (wf : WF h) (hent : h.entropyTy
   intro b hb
   obtain ⟨h0, hB, hx⟩ := hv b hb
   refine ⟨fun obuf => ?_, h0, hB⟩
-  obtain ⟨p, h1, h2, h3⟩ := block_roundtrip2 { cd with skipBlocks := sb } ks htrs hn h.blockSize obuf b
-    (entLawAt_of_law _ _ (entLaw_modelled _ (entOf2_modelled _ _ he (Or.inl hent)) _) _)
-    (by rw [chainBound_eq]; exact hcf) hx h0 hB wf.bsHi
+  obtain ⟨p, h1, h2, h3⟩ := block_roundtrip2 { cd with skipBlocks := sb } ks htrs hn h.blockSize obuf b hbs
+    (entLawAt_of_law _ _ (entLaw_modelled _ (entOf2_modelled _ _ he (Or.inl hent)) _) _) hx h0 hB wf.bsHi
   exact ⟨p, h1, h2, h3 hne⟩
 
 /-! ## 6. the hypotheses are satisfiable -/
